@@ -4,7 +4,7 @@
 From Coq Require Import String.
 From Coq Require Import List NArith ZArith Bool Lia.
 From Dials Require Import Base.Outcome Base.Runes Text.CaseConv Text.GoCamelSpec Text.GoCamelFacts
-  Text.GoCamelProofs Text.ParseInt Text.Quote Text.Split Text.ParseString Text.ParseIntProofs.
+  Text.GoCamelProofs Text.ParseInt Text.Quote Text.Split Text.ParseDuration Text.ParseString Text.ParseIntProofs Text.DurationProofs.
 Import ListNotations.
 Open Scope string_scope.
 Open Scope list_scope.
@@ -304,15 +304,19 @@ Section Splitters.
     - apply safe_omap, parse_bool_safe.
     - apply safe_omap, parse_number_int_safe.
     - destruct w; try triv; apply safe_omap, parse_number_uint_safe.
+    - apply safe_omap. destruct (parse_duration_x_total s) as [H1 H2]. split; [exact H1|].
+      destruct (parse_duration_x s) as [|c|]; try reflexivity. cbn. destruct (c =? 99) eqn:E; [|reflexivity].
+      apply N.eqb_eq in E. subst. exfalso. apply H2. reflexivity.
   Qed.
 
   Theorem parse_string_safe fixed t : forall s, safe (parse_string isp fixed true t s).
   Proof.
-    induction t as [| |w|w|e IH| | |k IHk v IHv|]; intros s; cbn [parse_string].
+    induction t as [| |w|w| |e IH| | |k IHk v IHv|]; intros s; cbn [parse_string].
     - apply (parse_scalar_safe TStr).
     - apply (parse_scalar_safe TBool).
     - apply (parse_scalar_safe (TInt w)).
     - apply (parse_scalar_safe (TUint w)).
+    - apply (parse_scalar_safe TDur).
     - apply safe_obind; [apply string_slice_safe|]. intros l.
       assert (H : safe (omap VList (map_out (fun x => v <- parse_string isp fixed true e x ;;
                                                        if true || scalar_kind e then Ok v else Panic p_elem_panic) l))).
